@@ -34,6 +34,7 @@ def check(c: Check):
     clause_f(c)
     clause_g(c)
     clause_h(c)
+    clause_i(c)
 
 
 # ---------------------------------------------------------------- a
@@ -724,3 +725,56 @@ def clause_h(c: Check):
             c.expect(res == {want}, 'C09-h', '_Equals.matches/must_be_unquoted=%s/quoted=%s' % (must, quoted),
                      'a %s token spelling the value matches=%s with must_be_unquoted=%s (expected %s)' % (
                          'quoted' if quoted else 'plain', sorted(map(str, res)), must, want), mt.loc())
+
+
+# ---------------------------------------------------------------- i
+def clause_i(c: Check):
+    """a quoted reference is a string: the string parsers may answer "this is just a reference to the symbol NAME"
+    (`Either.of_left(..)` - the caller then takes the symbol itself, e.g. splices a list symbol into a list) only for
+    an *unquoted* token; `"@[L]@"` in soft quotes is the string made of L's elements. On every path of the parsers in
+    `impls.types.string_.parse_string` that returns `Either.of_left(..)` a truth test of `<token>.is_plain` has held
+    (helpers of the module inlined)."""
+    ix, fo = c.ix, c.fo
+    m = ix.module('exactly_lib.impls.types.string_.parse_string')
+    either = ix.cls('exactly_lib.util.either:Either')
+    of_left = ix.class_member(either, 'of_left')
+    c.require(isinstance(of_left, FuncDef), 'C09-i: Either.of_left not found')
+
+    class H(Hooks):
+        record_truth_tests = True
+
+        def inline(self, fd, st):
+            return fd.module is m and fd.cls is None
+
+    n = 0
+    for f in m.all_funcs:
+        if f.parent is not None and f.cls is None:
+            continue
+        if not any(isinstance(x, ast.Attribute) and x.attr == 'of_left' for x in ast.walk(f.node)):
+            continue
+        for p in util.func_paths(ix, fo, f, H()):
+            if p.kind != 'return':
+                continue
+            o = p.val.origin if isinstance(p.val, Sym) else None
+            if not (o and o[0] == 'call' and o[1] == of_left.key):
+                continue
+            n += 1
+            plain = False
+            evs = p.trace
+            for i, e in enumerate(evs):
+                if e.kind != 'truth-test':
+                    continue
+                v, test = e.data
+                base, names = util.attr_chain(v)
+                if names[-1:] != ('is_plain',):
+                    continue
+                truth = next((g.data[1] for g in evs[i + 1:] if g.kind == 'guard' and g.data[0] is test), None)
+                if truth is None and isinstance(v, K):
+                    truth = bool(v.v)
+                if truth is True:
+                    plain = True
+            c.expect(plain, 'C09-i', 'bare-reference-only-from-plain-token/%s' % f.key,
+                     '%s answers "just a reference to a symbol" (Either.of_left) on a path that has not established that '
+                     'the token is unquoted: a soft-quoted "@[L]@" is then taken for the symbol L itself - a list is '
+                     'spliced in instead of being the one string of its elements' % f.key.split(':')[-1], f.loc())
+    c.floor('C09-i', 'paths of the string parsers that answer with a bare symbol reference', n, 2)
